@@ -23,6 +23,12 @@ run the RETURNED vector must be the correction accumulated through the observed
 sweep_move calls (the library returns it also when it gives up), Z-only, and
 must clear the face syndrome of the error whenever the automaton stopped with
 no excitations.
+
+Part 3 (site): the decoders accumulate their correction through `code.site(correction, P, edge)`; weight <= 3
+errors flip an edge at most twice, so longer per-edge histories are enumerated directly: every sequence of up
+to 6 applications of X/Y/Z on one edge, and every sequence of up to 4 applications on two edges, is replayed on
+a real operator dict and `code.to_bsf` of the result is compared, after every step, with the XOR of the applied
+Paulis' symplectic vectors.
 """
 import itertools
 import traceback
@@ -130,10 +136,12 @@ _T_PARAM = _Q_PARAM + [
 BOUNDS = {
     'quick': {'geometry_max_n': 200, 'geometry_l_max': 6, 'automaton': [a[:3] for a in _Q_AUTO],
               'automaton_decoder_parameters': [a[:4] for a in _Q_PARAM],
-              'tie_break_deviations': 2, 'complete_tree_leaves': 729},
+              'tie_break_deviations': 2, 'complete_tree_leaves': 729,
+              'site_histories': {'one_edge_max_len': 6, 'two_edges_max_len': 4}},
     'thorough': {'geometry_max_n': 800, 'geometry_l_max': 8, 'automaton': [a[:3] for a in _T_AUTO],
                  'automaton_decoder_parameters': [a[:4] for a in _T_PARAM],
-                 'tie_break_deviations': 2, 'complete_tree_leaves': 729},
+                 'tie_break_deviations': 2, 'complete_tree_leaves': 729,
+                 'site_histories': {'one_edge_max_len': 6, 'two_edges_max_len': 4}},
 }
 BUDGET_S = {'quick': 600, 'thorough': 5400}
 MAX_DEV = 2
@@ -169,10 +177,11 @@ def cases(tier, seed):
                 continue
             cross.append({'part': 'cross', 'seq': [[a, size], [bcls, size]]})
             cross.append({'part': 'cross', 'seq': [[bcls, size], [a, size]]})
+    site = [{'part': 'site', 'cls': c, 'size': F.sizes(c, 200, l_max=3)[0]} for c in GEOMETRY_CLASSES]
     small = [a for a in auto if a['size'] == [2, 2, 2]]
     large = [a for a in auto if a['size'] != [2, 2, 2]]
     head = len(GEOMETRY_CLASSES)
-    return geo[:head] + small + geo[head:] + large + cross
+    return geo[:head] + site + small + geo[head:] + large + cross
 
 
 # ---------------------------------------------------------------- shared reference
@@ -645,7 +654,71 @@ def _cross(case):
     return total
 
 
+_SITE_VEC = {'X': (1, 0), 'Y': (1, 1), 'Z': (0, 1)}
+SITE_MAX_LEN_ONE = 6
+SITE_MAX_LEN_TWO = 4
+
+
+def _site(case):
+    """Histories of `code.site` on one and on two edges (the correction accumulator of both sweep decoders)."""
+    cls, size = case['cls'], case['size']
+    code, _ = _build(cls, size)
+    n = code.n
+    locs = [tuple(int(v) for v in c) for c in code.qubit_coordinates]
+    first, last = locs[0], locs[-1]
+    res = {'evals': 0, 'nontrivial': 0, 'violations': [], 'outcomes': set(), 'samples': [],
+           'extra': {'site_histories': 0, 'site_steps': 0}}
+    alph_one = [(first, P) for P in 'XYZ']
+    alph_two = [(l, P) for l in (first, last) for P in 'XYZ']
+    reported = set()
+    for alph, max_len, tag in ((alph_one, SITE_MAX_LEN_ONE, 'one-edge'), (alph_two, SITE_MAX_LEN_TWO, 'two-edges')):
+        for length in range(1, max_len + 1):
+            for hist in itertools.product(alph, repeat=length):
+                res['extra']['site_histories'] += 1
+                op = {}
+                want = np.zeros(2 * n, dtype=int)
+                for step, (loc, P) in enumerate(hist):
+                    res['evals'] += 1
+                    res['extra']['site_steps'] += 1
+                    q = code.qubit_index[loc]
+                    want[q] ^= _SITE_VEC[P][0]
+                    want[n + q] ^= _SITE_VEC[P][1]
+                    err = None
+                    try:
+                        code.site(op, P, loc)
+                        got = np.asarray(code.to_bsf(dict(op))).ravel().astype(int) % 2
+                    except Exception as exc:
+                        err, got = exc, None
+                    ok = err is None and got.shape == want.shape and bool((got == want).all())
+                    if step == length - 1:
+                        res['nontrivial'] += int(length >= 3)
+                        res['outcomes'].add('%s|%s|%d|%d' % (cls, tag, length, int(want.sum())))
+                    if not ok:
+                        word = ''.join(P_ for _, P_ in hist[:step + 1])
+                        where = ''.join('ab'[(first, last).index(l)] if tag == 'two-edges' else 'a'
+                                        for l, _ in hist[:step + 1])
+                        kind = (word, where)
+                        if kind not in reported and len(reported) < 3:
+                            reported.add(kind)
+                            res['violations'].append({
+                                'key': {'kind': 'site', 'site': 'code.site', 'code': cls, 'size': list(size),
+                                        'paulis': word, 'edges': where},
+                                'detail': {'edge_a': list(first), 'edge_b': list(last),
+                                           'operator_dict': {str(k): v for k, v in op.items()},
+                                           'raised': None if err is None else repr(err)[:200],
+                                           'to_bsf_support': None if got is None else
+                                           [int(i) for i in np.nonzero(got)[0]],
+                                           'xor_of_applied_paulis_support': [int(i) for i in np.nonzero(want)[0]]}})
+                        break
+    res['outcomes'] = sorted(res['outcomes'])[:50]
+    res['samples'] = [{'part': 'site', 'code': cls, 'size': list(size), 'edge_a': list(first),
+                       'edge_b': list(last), 'histories': res['extra']['site_histories']}]
+    return res
+
+
 def eval_case(case):
+    if case['part'] == 'site':
+        return _site(case)
     if case['part'] == 'geometry':
         return _geometry(case)
     if case['part'] == 'cross':
